@@ -12,6 +12,13 @@
 // `it=ra` runs a random-access algorithm on a range-checked iterator: arithmetic that leaves [first,last] or a
 // dereference outside [first,last) is printed as `!iter-oob` (pointer arithmetic outside the object is UB that
 // neither ASan nor UBSan report when nothing is dereferenced).
+// `it=in1` runs an input-iterator algorithm on a GENUINELY single-pass iterator (`sp_it`: every copy shares one
+// cursor, like istream_iterator): dereferencing or incrementing a copy that the stream has already left behind
+// (a second traversal, `distance(first,last)` before the loop, re-reading a passed position) is printed as `!multipass`.
+// `ty=sc|uc|c|sh|b` (arith_step) runs the comparison-based algorithms on arrays of signed char / unsigned char / char /
+// short / bool through raw pointers; `ce=1` adds the result of the SAME etl call evaluated by the compiler (constexpr
+// tables over a small alphabet), so a run-time-only fast path that disagrees with the constant-evaluated path shows.
+#if !defined(C06_PART) || C06_PART != -2 // -2: link step only (the objects of the two parts are on the command line)
 #include "proto.hpp"
 
 #include <etl/algorithm.hpp>
@@ -21,7 +28,9 @@
 #include <etl/utility.hpp>
 
 #include <algorithm>
+#include <array>
 #include <functional>
+#include <memory>
 #include <numeric>
 #include <string>
 #include <utility>
@@ -30,8 +39,200 @@
 using proto::Line;
 using LL = long long;
 
+// Translation units (checks/props/c06.py compiles them in parallel): -DC06_PART=0 the arithmetic-element part,
+// -DC06_PART=-1 everything else + main, -DC06_PART=-2 nothing (link step); without -DC06_PART one translation unit.
+#ifndef C06_PART
+#define C06_PART 99
+#endif
+std::string arith_step(Line const& ln);
+
+#if C06_PART == 0 || C06_PART == 99
+// ---------------------------------------------------------------- arithmetic element types through raw pointers (ty=)
+// Elements are the values themselves (no tags): comparison is the built-in `<` / `==` of the type (dflt) or a functor
+// (less / greater / eq). With ce=1 every element comes from the alphabet of the type and the lengths are <= 2 (two
+// ranges) / <= 3 (one range): the result of the same etl call, evaluated by the compiler, is appended as ` ce=…`.
+template <typename T> struct alpha { static constexpr int K = 5; };
+template <> struct alpha<signed char> { static constexpr int K = 5; static constexpr signed char v[5] = {-128, -1, 0, 1, 127}; };
+template <> struct alpha<unsigned char> { static constexpr int K = 5; static constexpr unsigned char v[5] = {0, 1, 127, 128, 255}; };
+template <> struct alpha<char> { static constexpr int K = 5; static constexpr char v[5] = {static_cast<char>(-128), static_cast<char>(-1), 0, 1, 127}; };
+template <> struct alpha<short> { static constexpr int K = 5; static constexpr short v[5] = {-32768, -1, 0, 1, 32767}; };
+template <> struct alpha<bool> { static constexpr int K = 2; static constexpr bool v[2] = {false, true}; };
+constexpr int nseq(int K, int L) { int s = 0, p = 1; for (int n = 0; n <= L; ++n) { s += p; p *= K; } return s; }
+template <typename T> struct seq { T d[3] = {}; int n = 0; };
+template <typename T> constexpr seq<T> dec(int idx)
+{
+    constexpr int K = alpha<T>::K;
+    seq<T> s;
+    int p = 1;
+    while (idx >= p) { idx -= p; p *= K; ++s.n; }
+    for (int k = s.n - 1; k >= 0; --k) { s.d[k] = alpha<T>::v[idx % K]; idx /= K; }
+    return s;
+}
+template <typename T> constexpr int enc(T const* d, int n)
+{
+    constexpr int K = alpha<T>::K;
+    int base = 0, p = 1, idx = 0;
+    for (int k = 0; k < n; ++k) { base += p; p *= K; }
+    for (int k = 0; k < n; ++k) {
+        int dig = -1;
+        for (int q = 0; q < K; ++q) if (alpha<T>::v[q] == d[k]) dig = q;
+        if (dig < 0) return -1;
+        idx = idx * K + dig;
+    }
+    return base + idx;
+}
+template <typename T, typename F> constexpr auto table2(F fn) // both ranges of length <= 2
+{
+    constexpr int S = nseq(alpha<T>::K, 2);
+    std::array<short, S * S> t{};
+    for (int i = 0; i < S; ++i)
+        for (int j = 0; j < S; ++j) { auto x = dec<T>(i); auto y = dec<T>(j); t[i * S + j] = static_cast<short>(fn(x.d, x.n, y.d, y.n)); }
+    return t;
+}
+template <typename T, typename F> constexpr auto table1(F fn) // one range of length <= 3, one value
+{
+    constexpr int S = nseq(alpha<T>::K, 3);
+    constexpr int K = alpha<T>::K;
+    std::array<short, S * K> t{};
+    for (int i = 0; i < S; ++i)
+        for (int q = 0; q < K; ++q) { auto x = dec<T>(i); t[i * K + q] = static_cast<short>(fn(x.d, x.n, alpha<T>::v[q])); }
+    return t;
+}
+struct ACmp { int kind; template <typename T> constexpr bool operator()(T const& a, T const& b) const { return kind == 1 ? b < a : a < b; } };
+struct AEq { template <typename T> constexpr bool operator()(T const& a, T const& b) const { return a == b; } };
+template <typename T> struct ce_tab {
+    using P = T const*;
+    static constexpr auto lex    = table2<T>([](P a, int n, P b, int m) { return etl::lexicographical_compare(a, a + n, b, b + m) ? 1 : 0; });
+    static constexpr auto lexc   = table2<T>([](P a, int n, P b, int m) { return etl::lexicographical_compare(a, a + n, b, b + m, ACmp{0}) ? 1 : 0; });
+    static constexpr auto equal4 = table2<T>([](P a, int n, P b, int m) { return etl::equal(a, a + n, b, b + m) ? 1 : 0; });
+    static constexpr auto equal3 = table2<T>([](P a, int n, P b, int m) { return m < n ? -1 : etl::equal(a, a + n, b) ? 1 : 0; });
+    static constexpr auto mism   = table2<T>([](P a, int n, P b, int m) { return static_cast<int>(etl::mismatch(a, a + n, b, b + m).first - a); });
+    static constexpr auto search = table2<T>([](P a, int n, P b, int m) { return static_cast<int>(etl::search(a, a + n, b, b + m) - a); });
+    static constexpr auto minel  = table1<T>([](P a, int n, T) { return static_cast<int>(etl::min_element(a, a + n) - a); });
+    static constexpr auto maxel  = table1<T>([](P a, int n, T) { return static_cast<int>(etl::max_element(a, a + n) - a); });
+    static constexpr auto find   = table1<T>([](P a, int n, T v) { return static_cast<int>(etl::find(a, a + n, v) - a); });
+    static constexpr auto count  = table1<T>([](P a, int n, T v) { return static_cast<int>(etl::count(a, a + n, v)); });
+    static constexpr auto sort   = table1<T>([](P a, int n, T) { T c[3] = {a[0], a[1], a[2]}; etl::sort(c, c + n); return enc<T>(c, n); });
+    static constexpr auto ssort  = table1<T>([](P a, int n, T) { T c[3] = {a[0], a[1], a[2]}; etl::stable_sort(c, c + n); return enc<T>(c, n); });
+};
+
+template <typename T> static std::string arith(Line const& ln)
+{
+    auto ri = [](std::ptrdiff_t i) { return "r=" + std::to_string(i); };
+    auto rb = [](bool b) { return std::string("r=") + (b ? "1" : "0"); };
+    using AB = proto::heap_buf<T>;
+    std::string const& op = ln.op;
+    std::vector<LL> av    = ln.has("a") ? ln.list("a") : std::vector<LL>{};
+    std::vector<LL> bv    = ln.has("b") ? ln.list("b") : std::vector<LL>{};
+    std::size_t const N = av.size(), H = bv.size();
+    std::size_t const f = ln.has("f") ? static_cast<std::size_t>(ln.i("f")) : 0;
+    std::size_t const l = ln.has("l") ? static_cast<std::size_t>(ln.i("l")) : N;
+    if (!(f <= l && l <= N)) return "bad-op\tbad-op";
+    int const n = static_cast<int>(l - f), m = static_cast<int>(H);
+    std::string const cs = ln.has("cmp") ? ln.str("cmp") : "dflt";
+    bool const d         = cs == "dflt";
+    ACmp const cmp{cs == "greater" ? 1 : 0};
+    bool const eqd = !ln.has("eq") || ln.str("eq") == "dflt";
+    AEq const eq{};
+    std::string const ov = ln.has("ov") ? ln.str("ov") : "";
+    bool const ce        = ln.i("ce", 0) != 0;
+    T const v            = static_cast<T>(ln.i("v", 0));
+    AB a(av), b(bv), s(av);
+    T *F = a.p + f, *L = a.p + l, *G = b.p, *Hh = b.p + H, *SF = s.p + f, *SL = s.p + l;
+    int i1 = -1, i2 = -1, vq = -1;
+    constexpr int S2 = nseq(alpha<T>::K, 2), K = alpha<T>::K;
+    if (ce) {
+        i1 = n <= 3 ? enc<T>(F, n) : -1;
+        i2 = m <= 2 ? enc<T>(G, m) : -1;
+        for (int q = 0; q < K; ++q) if (alpha<T>::v[q] == v) vq = q;
+        if (i1 < 0) return "bad-op\tbad-op";
+    }
+    auto out = [](std::string x, std::string y) { return x + "\t" + y; };
+    auto t2 = [&](auto const& tab) { return (ce && n <= 2 && i2 >= 0) ? static_cast<int>(tab[static_cast<std::size_t>(i1 * S2 + i2)]) : -99; };
+    auto t1 = [&](auto const& tab) { return ce ? static_cast<int>(tab[static_cast<std::size_t>(i1 * K + (vq < 0 ? 0 : vq))]) : -99; };
+    auto rbc = [&](bool r, int c) { return rb(r) + (ce ? " ce=" + std::to_string(c) : ""); };
+    auto ric = [&](std::ptrdiff_t r, int c) { return ri(r) + (ce ? " ce=" + std::to_string(static_cast<std::ptrdiff_t>(f) + c) : ""); };
+    auto srb = [&](bool r) { return rb(r) + (ce ? std::string(" ce=") + (r ? "1" : "0") : ""); };   // oracle column: its own result twice
+    auto sri = [&](std::ptrdiff_t r) { return ri(r) + (ce ? " ce=" + std::to_string(r) : ""); };
+    using ct = ce_tab<T>;
+    if (op == "lexicographical_compare")
+        return out(rbc(d ? etl::lexicographical_compare(F, L, G, Hh) : etl::lexicographical_compare(F, L, G, Hh, cmp), t2(d ? ct::lex : ct::lexc)),
+            srb(d ? std::lexicographical_compare(F, L, G, Hh) : std::lexicographical_compare(F, L, G, Hh, cmp)));
+    if (op == "equal") {
+        if (ov == "4") return out(rbc(eqd ? etl::equal(F, L, G, Hh) : etl::equal(F, L, G, Hh, eq), t2(ct::equal4)), srb(eqd ? std::equal(F, L, G, Hh) : std::equal(F, L, G, Hh, eq)));
+        if (m < n) return "bad-op\tbad-op";
+        return out(rbc(eqd ? etl::equal(F, L, G) : etl::equal(F, L, G, eq), t2(ct::equal3)), srb(eqd ? std::equal(F, L, G) : std::equal(F, L, G, eq)));
+    }
+    if (op == "mismatch") {
+        auto fmt2 = [](std::ptrdiff_t x, std::ptrdiff_t y) { return "r=" + std::to_string(x) + "," + std::to_string(y); };
+        auto re = eqd ? etl::mismatch(F, L, G, Hh) : etl::mismatch(F, L, G, Hh, eq);
+        auto rs = eqd ? std::mismatch(F, L, G, Hh) : std::mismatch(F, L, G, Hh, eq);
+        return out(fmt2(re.first - a.p, re.second - b.p) + (ce ? " ce=" + std::to_string(static_cast<int>(f) + t2(ct::mism)) : ""), fmt2(rs.first - a.p, rs.second - b.p) + (ce ? " ce=" + std::to_string(rs.first - a.p) : ""));
+    }
+    if (op == "search") return out(ric((eqd ? etl::search(F, L, G, Hh) : etl::search(F, L, G, Hh, eq)) - a.p, t2(ct::search)), sri((eqd ? std::search(F, L, G, Hh) : std::search(F, L, G, Hh, eq)) - a.p));
+    if (op == "find_end") return out(ri((eqd ? etl::find_end(F, L, G, Hh) : etl::find_end(F, L, G, Hh, eq)) - a.p), ri((eqd ? std::find_end(F, L, G, Hh) : std::find_end(F, L, G, Hh, eq)) - a.p));
+    if (op == "includes") return out(rb(d ? etl::includes(F, L, G, Hh) : etl::includes(F, L, G, Hh, cmp)), rb(d ? std::includes(F, L, G, Hh) : std::includes(F, L, G, Hh, cmp)));
+    if (op == "is_permutation") return out(rb(etl::is_permutation(F, L, G, Hh)), rb(std::is_permutation(F, L, G, Hh)));
+    if (op == "min_element") return out(ric((d ? etl::min_element(F, L) : etl::min_element(F, L, cmp)) - a.p, t1(ct::minel)), sri((d ? std::min_element(F, L) : std::min_element(F, L, cmp)) - a.p));
+    if (op == "max_element") return out(ric((d ? etl::max_element(F, L) : etl::max_element(F, L, cmp)) - a.p, t1(ct::maxel)), sri((d ? std::max_element(F, L) : std::max_element(F, L, cmp)) - a.p));
+    if (op == "minmax_element") {
+        auto fmt2 = [](std::ptrdiff_t x, std::ptrdiff_t y) { return "r=" + std::to_string(x) + "," + std::to_string(y); };
+        auto re = d ? etl::minmax_element(F, L) : etl::minmax_element(F, L, cmp);
+        auto rs = d ? std::minmax_element(F, L) : std::minmax_element(F, L, cmp);
+        return out(fmt2(re.first - a.p, re.second - a.p), fmt2(rs.first - a.p, rs.second - a.p));
+    }
+    if (op == "is_sorted_until") return out(ri((d ? etl::is_sorted_until(F, L) : etl::is_sorted_until(F, L, cmp)) - a.p), ri((d ? std::is_sorted_until(F, L) : std::is_sorted_until(F, L, cmp)) - a.p));
+    if (op == "find") return out(ric(etl::find(F, L, v) - a.p, t1(ct::find)), sri(std::find(F, L, v) - a.p));
+    if (op == "count") return out(ri(etl::count(F, L, v)) + (ce ? " ce=" + std::to_string(t1(ct::count)) : ""), sri(std::count(F, L, v)));
+    if (op == "lower_bound") return out(ri((d ? etl::lower_bound(F, L, v) : etl::lower_bound(F, L, v, cmp)) - a.p), ri((d ? std::lower_bound(F, L, v) : std::lower_bound(F, L, v, cmp)) - a.p));
+    if (op == "upper_bound") return out(ri((d ? etl::upper_bound(F, L, v) : etl::upper_bound(F, L, v, cmp)) - a.p), ri((d ? std::upper_bound(F, L, v) : std::upper_bound(F, L, v, cmp)) - a.p));
+    {
+        auto arrs = [&](AB const& x) { return "a=" + proto::fmt_list(x.to_list()); };
+        auto cev  = [&](int code) { // the constant-evaluated sorted range, decoded
+            if (!ce) return std::string();
+            auto q = dec<T>(code);
+            std::vector<LL> r;
+            for (int k = 0; k < q.n; ++k) r.push_back(static_cast<LL>(q.d[k]));
+            return " ce=" + proto::fmt_list(r);
+        };
+        auto sorts = [&](auto etl_sort, bool stable, int code) {
+            etl_sort();
+            if (stable) { if (d) std::stable_sort(SF, SL); else std::stable_sort(SF, SL, cmp); }
+            else { if (d) std::sort(SF, SL); else std::sort(SF, SL, cmp); }
+            std::vector<LL> sr;
+            for (T* q = SF; q != SL; ++q) sr.push_back(static_cast<LL>(*q));
+            return out(arrs(a) + (d ? cev(code) : std::string()), arrs(s) + (ce ? " ce=" + proto::fmt_list(sr) : std::string()));
+        };
+        if (ce && !d) return "bad-op\tbad-op";
+        if (op == "sort") return sorts([&] { if (d) etl::sort(F, L); else etl::sort(F, L, cmp); }, false, ce ? t1(ct::sort) : 0);
+        if (op == "stable_sort") return sorts([&] { if (d) etl::stable_sort(F, L); else etl::stable_sort(F, L, cmp); }, true, ce ? t1(ct::ssort) : 0);
+        if (ce) return "bad-op\tbad-op";
+        if (op == "insertion_sort") return sorts([&] { if (d) etl::insertion_sort(F, L); else etl::insertion_sort(F, L, cmp); }, true, 0);
+        if (op == "merge_sort") return sorts([&] { if (d) etl::merge_sort(F, L); else etl::merge_sort(F, L, cmp); }, true, 0);
+        if (op == "gnome_sort") return sorts([&] { if (d) etl::gnome_sort(F, L); else etl::gnome_sort(F, L, cmp); }, false, 0);
+        if (op == "bubble_sort") return sorts([&] { if (d) etl::bubble_sort(F, L); else etl::bubble_sort(F, L, cmp); }, false, 0);
+        if (op == "exchange_sort") return sorts([&] { if (d) etl::exchange_sort(F, L); else etl::exchange_sort(F, L, cmp); }, false, 0);
+    }
+    return "bad-op\tbad-op";
+}
+std::string arith_step(Line const& ln)
+{
+    std::string const ty = ln.str("ty");
+    if (ty == "sc") return arith<signed char>(ln);
+    if (ty == "uc") return arith<unsigned char>(ln);
+    if (ty == "c") return arith<char>(ln);
+    if (ty == "sh") return arith<short>(ln);
+    if (ty == "b") return arith<bool>(ln);
+    return "bad-op\tbad-op";
+}
+
+#endif // arithmetic part
+
+#if C06_PART == -1 || C06_PART == 99
+
 static bool g_ctx_touched = false;
 static bool g_iter_oob    = false;
+static bool g_multipass   = false;
 
 struct E {
     int v = 0;
@@ -117,6 +318,36 @@ struct out_it { // output iterator: write-only, single pass
     out_it& operator++() { ++p; return *this; }
     out_it operator++(int) { auto t = *this; ++p; return t; }
 };
+// genuinely single-pass input iterator: all copies made from one iterator share the position of the underlying
+// stream; a copy is usable (dereference, increment) only while it stands AT that position ([input.iterators]:
+// after ++r, copies of the previous value of r are not required to be dereferenceable). Dereferencing the current
+// position more than once is allowed (lexicographical_compare reads `*first1` twice per step, like libstdc++).
+template <typename T>
+struct sp_it {
+    using iterator_category = etl::input_iterator_tag;
+    using value_type        = T;
+    using difference_type   = std::ptrdiff_t;
+    using pointer           = T*;
+    using reference         = T&;
+    T* p                    = nullptr;
+    std::shared_ptr<T*> cur; // where the stream stands
+    sp_it() = default;
+    explicit sp_it(T* q) : p(q), cur(std::make_shared<T*>(q)) { }
+    void fresh() const { if (*cur != p) g_multipass = true; }
+    reference operator*() const { fresh(); return *p; }
+    pointer operator->() const { fresh(); return p; }
+    sp_it& operator++()
+    {
+        if (*cur != p) { g_multipass = true; p = *cur; return *this; } // the stream has moved on: the copy lands where the stream is
+        ++p;
+        *cur = p;
+        return *this;
+    }
+    struct post { T* q; T& operator*() const { return *q; } }; // `*r++` is all that an input iterator promises
+    post operator++(int) { post r{p}; ++*this; return r; }
+    friend bool operator==(sp_it const& a, sp_it const& b) { return a.p == b.p; }
+    friend bool operator!=(sp_it const& a, sp_it const& b) { return a.p != b.p; }
+};
 // random-access iterator that knows the range it was handed (indices relative to the storage base)
 template <typename T>
 struct rait {
@@ -159,10 +390,12 @@ template <typename T> static T* base(rait<T> w) { return w.b + (w.i < w.lo ? w.l
 template <typename T> static T* base(T* p) { return p; }
 template <typename T, typename C> static T* base(wit<T, C> w) { return w.p; }
 template <typename T> static T* base(out_it<T> w) { return w.p; }
+template <typename T> static T* base(sp_it<T> const& w) { return w.p; }
 
 struct mk_ptr { template <typename T> T* operator()(T* p) const { return p; } };
 template <typename Cat> struct mk_wit { template <typename T> wit<T, Cat> operator()(T* p) const { return wit<T, Cat>(p); } };
 using mk_in   = mk_wit<etl::input_iterator_tag>;
+struct mk_in1 { template <typename T> sp_it<T> operator()(T* p) const { return sp_it<T>(p); } };
 using mk_fwd  = mk_wit<etl::forward_iterator_tag>;
 using mk_bidi = mk_wit<etl::bidirectional_iterator_tag>;
 struct mk_ra { // range-checked random access over [b+lo, b+hi]
@@ -182,6 +415,7 @@ template <typename F> static std::string with_in(std::string const& it, F fn)
 {
     if (it == "ptr") return fn(mk_ptr{});
     if (it == "in") return fn(mk_in{});
+    if (it == "in1") return fn(mk_in1{});
     if (it == "fwd") return fn(mk_fwd{});
     if (it == "bidi") return fn(mk_bidi{});
     bad_kind(it, "input");
@@ -204,6 +438,7 @@ template <typename F> static std::string with_in_out(std::string const& it, F fn
 {
     if (it == "ptr") return fn(mk_ptr{}, mk_outp{});
     if (it == "in") return fn(mk_in{}, mk_outw{});
+    if (it == "in1") return fn(mk_in1{}, mk_outw{});
     if (it == "fwd") return fn(mk_fwd{}, mk_outw{});
     if (it == "bidi") return fn(mk_bidi{}, mk_outp{});
     bad_kind(it, "input/output");
@@ -295,16 +530,20 @@ template <typename F> static std::string impl(F fn)
 {
     g_ctx_touched = false;
     g_iter_oob    = false;
+    g_multipass   = false;
     std::string r = fn();
     if (g_ctx_touched) r += " !pred-oob";
     if (g_iter_oob) r += " !iter-oob";
+    if (g_multipass) r += " !multipass";
     g_ctx_touched = false;
     g_iter_oob    = false;
+    g_multipass   = false;
     return r;
 }
 
 static std::string step(Line const& ln)
 {
+    if (ln.has("ty")) return arith_step(ln);
     auto out = [](std::string a, std::string b) { return a + "\t" + b; };
     std::string const& op = ln.op;
     std::string it        = ln.has("it") ? ln.str("it") : "ptr";
@@ -454,6 +693,17 @@ static std::string step(Line const& ln)
         std::string rs = std_fn(a.p + f, a.p + l, b.p + G0, b.p + H0, a.p, b.p);
         return out(re, rs);
     };
+    // first range through any input kind, the second one must be multi-pass (find_first_of re-traverses the needle)
+    auto ro2n = [&](auto etl_fn, auto std_fn) {
+        Buf a(av);
+        Buf b(bv);
+        std::string re = impl([&] {
+            if (it == "in1") return etl_fn(mk_in1{}(a.p + f), mk_in1{}(a.p + l), mk_fwd{}(b.p + G0), mk_fwd{}(b.p + H0), a.p, b.p);
+            return with_in(it, [&](auto mk) { return etl_fn(mk(a.p + f), mk(a.p + l), mk(b.p + G0), mk(b.p + H0), a.p, b.p); });
+        });
+        std::string rs = std_fn(a.p + f, a.p + l, b.p + G0, b.p + H0, a.p, b.p);
+        return out(re, rs);
+    };
     auto ro2_fwd = [&](auto etl_fn, auto std_fn) {
         Buf a(av);
         Buf b(bv);
@@ -472,8 +722,8 @@ static std::string step(Line const& ln)
         return ro2_fwd([&](auto F, auto L, auto G, auto Hh, E* a0, E*) { return IDX(etl::find_end(F, L, G, Hh, eq)); }, [&](E* F, E* L, E* G, E* Hh, E* a0, E*) { return IDX(std::find_end(F, L, G, Hh, eq)); });
     }
     if (op == "find_first_of") {
-        if (eq_dflt(ln)) return ro2([&](auto F, auto L, auto G, auto Hh, E* a0, E*) { return IDX(etl::find_first_of(F, L, G, Hh)); }, [&](E* F, E* L, E* G, E* Hh, E* a0, E*) { return IDX(std::find_first_of(F, L, G, Hh)); });
-        return ro2([&](auto F, auto L, auto G, auto Hh, E* a0, E*) { return IDX(etl::find_first_of(F, L, G, Hh, eq)); }, [&](E* F, E* L, E* G, E* Hh, E* a0, E*) { return IDX(std::find_first_of(F, L, G, Hh, eq)); });
+        if (eq_dflt(ln)) return ro2n([&](auto F, auto L, auto G, auto Hh, E* a0, E*) { return IDX(etl::find_first_of(F, L, G, Hh)); }, [&](E* F, E* L, E* G, E* Hh, E* a0, E*) { return IDX(std::find_first_of(F, L, G, Hh)); });
+        return ro2n([&](auto F, auto L, auto G, auto Hh, E* a0, E*) { return IDX(etl::find_first_of(F, L, G, Hh, eq)); }, [&](E* F, E* L, E* G, E* Hh, E* a0, E*) { return IDX(std::find_first_of(F, L, G, Hh, eq)); });
     }
     if (op == "mismatch") {
         auto fmt2 = [](std::ptrdiff_t x, std::ptrdiff_t y) { return "r=" + std::to_string(x) + "," + std::to_string(y); };
@@ -786,6 +1036,7 @@ static std::string step(Line const& ln)
         auto num_in = [&](auto fn) {
             if (it == "ptr") return fn(mk_ptr{});
             if (it == "in") return fn(mk_in{});
+            if (it == "in1") return fn(mk_in1{});
             return fn(mk_fwd{});
         };
         if (op == "iota") {
@@ -845,6 +1096,7 @@ static std::string step(Line const& ln)
             };
             if (it == "ptr") re = run(mk_ptr{}, de.p + dp);
             else if (it == "in") re = run(mk_in{}, out_it<LL>{de.p + dp});
+            else if (it == "in1") re = run(mk_in1{}, out_it<LL>{de.p + dp});
             else re = run(mk_fwd{}, out_it<LL>{de.p + dp});
             return out(show(re, de), show(sr - ds.p, ds));
         }
@@ -853,3 +1105,5 @@ static std::string step(Line const& ln)
 }
 
 int main(int argc, char** argv) { return proto::run(argc, argv, step); }
+#endif // main part
+#endif // C06_PART != -2
